@@ -198,11 +198,27 @@ class Scheduler(object):
   # ---- tracing ------------------------------------------------------------------------------
   def _global_trace(self, frame, event, arg):
     code = frame.f_code
-    funcs = self.visible.get(code.co_filename, 0)
-    if funcs == 0:
+    spec = self.visible.get(code.co_filename, 0)
+    if spec == 0:
       return None
-    if funcs is not None and code.co_name not in funcs:
-      return None
+    if spec is not None:
+      if isinstance(spec, dict):
+        funcs = spec.get('funcs')
+        if funcs is not None and code.co_name not in funcs:
+          return None
+        if spec.get('lines') is not None:
+          if code.co_name in self.opcode_funcs:
+            frame.f_trace_opcodes = True
+          lines = spec['lines']
+
+          def filtered(frame, event, arg, lines=lines, local=self._local_trace):
+            if event == 'line' and frame.f_lineno not in lines:
+              return filtered
+            local(frame, event, arg)
+            return filtered
+          return filtered
+      elif code.co_name not in spec:
+        return None
     if code.co_name in self.opcode_funcs:
       frame.f_trace_opcodes = True
     return self._local_trace
@@ -403,6 +419,8 @@ def run_one(harness_factory, params, prefix, expect=None, keep_trace=False):
   h.setup(s)
   try:
     s.run()
+  except Nondeterminism as e:
+    raise Nondeterminism('%s | params=%r prefix=%r' % (e, params, list(prefix)))
   finally:
     h.teardown(s)
   return s, h
@@ -448,7 +466,14 @@ def explore_subtree(arg):
       stats['spill'] = [(factory, params, pre, usedc, bounds, exp, max_violations, cap) for pre, usedc, exp in stack]
       break
     pre, usedc, exp = stack.pop()
-    s, h = run_one(factory, params, pre, expect=exp)
+    try:
+      s, h = run_one(factory, params, pre, expect=exp)
+    except Nondeterminism:
+      if os.environ.get('VERIF_DEBUG_DUMP'):
+        import pickle
+        with open(os.environ['VERIF_DEBUG_DUMP'], 'wb') as f:
+          pickle.dump((params, pre, exp), f)
+      raise
     n += 1
     if n % 500 == 1 and n > 1 or (n == 1 and not pre):
       # ownership of nondeterminism: the same schedule must give the same observations
